@@ -2,8 +2,8 @@
    Every statement is spelled out here (it is convertible to the `*_statement` definition of Proofs.v, where the
    comments explaining each clause live).  Over R: `Rops` is the real-number instance of the operations record.
 
-   The two `_refuted` theorems are recorded findings (known_findings.d/C07.json): the normal of a skew quad depends on
-   where its vertex list starts; the absolute parallelism guard denies small triangles their circumcentre. *)
+   C07_face_normal_rotation_refuted is a recorded finding (known_findings.d/C07.json): the normal of a skew quad
+   depends on where its vertex list starts. *)
 From Coq Require Import ZArith List Bool Reals.
 Require Import MV.Lib.Base MV.C07.Model MV.C07.Gen MV.C07.Mesh MV.C07.Proofs_Base MV.C07.Proofs_Rigid MV.C07.Proofs_MeshRigid
   MV.C07.Proofs_Angles MV.C07.Proofs_Interp MV.C07.Proofs_GB MV.C07.Proofs_Renum MV.C07.Proofs_Count MV.C07.Proofs_GBfull
@@ -86,7 +86,9 @@ Theorem C07_scaling :
   (forall A B C D, g_cell_volume Rops (sc A) (sc B) (sc C) (sc D) = s * s * s * g_cell_volume Rops A B C D) /\
   (forall l, g_face_bary Rops (map sc l) = sc (g_face_bary Rops l)) /\
   (forall l, g_cell_bary Rops (map sc l) = sc (g_cell_bary Rops l)) /\
-  (forall l, g_barycenter Rops (map sc l) = sc (g_barycenter Rops l))) /\
+  (forall l, g_barycenter Rops (map sc l) = sc (g_barycenter Rops l)) /\
+  (forall A B C, 0 < n2 (cross (B -v A) (C -v A)) ->
+     g_circumcenter Rops (sc A) (sc B) (sc C) = omap sc (g_circumcenter Rops A B C))) /\
   (* every attribute of the scaled mesh *)
   (forall (s : R) (m : mesh R), 0 < s -> wf_mesh m -> let sc := scl s in let m' := map_mesh sc m in
   edge_length Rops m' = map (Rmult s) (edge_length Rops m) /\
@@ -108,6 +110,7 @@ Theorem C07_scaling :
   (* the first three vertices of every face are not collinear: unit normals, cotangents, vertex normals *)
   (faces_nondegenerate m ->
      face_normals Rops m' = face_normals Rops m /\
+     face_circumcenter Rops m' = map (omap sc) (face_circumcenter Rops m) /\
      ((forall F, In F (faces m) -> zlen F = 3%Z) -> cotangent Rops m' = cotangent Rops m /\ cotan_weights Rops m' = cotan_weights Rops m) /\
      (forall ang, vertex_normals Rops WUniform ang m' = vertex_normals Rops WUniform ang m /\
                   vertex_normals Rops WAngle ang m' = vertex_normals Rops WAngle ang m) /\
@@ -227,9 +230,4 @@ Theorem C07_face_normal_rotation_refuted :
     g_face_normal Rops A B C <> g_face_normal Rops B C D.
 Proof. exact face_normal_rotation_refuted. Qed.
 Print Assumptions C07_face_normal_rotation_refuted.
-
-Theorem C07_circumcenter_guard_refuted :
-  exists A B C : V3, 0 < n2 (cross (B -v A) (C -v A)) /\ g_circumcenter Rops A B C = None.
-Proof. exact circumcenter_guard_refuted. Qed.
-Print Assumptions C07_circumcenter_guard_refuted.
 
